@@ -193,22 +193,45 @@ Qed.
 Lemma int_min_nonpos : (int_min <= 0)%Z.
 Proof. unfold int_min, GenAutoRemove.counter_bits. vm_compute. discriminate. Qed.
 
-Lemma counter_arith islist n t :
-  in_range n -> (0 <= t < Z.max n 1)%Z ->
-  exists due, GenAutoRemove.counter_step islist int_dec (n - t) = ((n - (t + 1))%Z, due)
-              /\ (due = false <-> (t + 1 < Z.max n 1)%Z)
-              /\ dec_overflows (n - t) = false.
+Lemma no_overflow_in_range n t : in_range n -> (0 <= t < Z.max n 1)%Z -> dec_overflows (n - t) = false.
 Proof.
   intros [R1 R2] T. pose proof int_min_nonpos as M.
+  unfold dec_overflows. destruct (Z.ltb_spec (n - t - 1) int_min); [lia|reflexivity].
+Qed.
+
+(* what the proofs need from the header-dependent ingredients *)
+Definition step_ok (step : (Z -> Z) -> Z -> Z * bool) : Prop :=
+  forall n t, in_range n -> (0 <= t < Z.max n 1)%Z ->
+    exists due, step int_dec (n - t)%Z = ((n - (t + 1))%Z, due) /\ (due = false <-> (t + 1 < Z.max n 1)%Z).
+
+Definition leafs_ok (lf : leafs) : Prop :=
+  step_ok (lf_step lf)
+  /\ lf_counter_rbc lf = true /\ lf_cond_rbc lf = true
+  /\ (forall w, lf_pass lf w = w)
+  /\ lf_counter_shared lf = true /\ lf_cond_shared lf = true.
+
+(* THE place where the generated definitions are opened: `<` for `<=`, a post-decrement, the
+   listener called before the removal, the condition not given its arguments or state kept in
+   the helper object make this lemma fail *)
+Lemma gen_leafs_ok islist : leafs_ok (gen_leafs islist).
+Proof.
+  unfold leafs_ok, gen_leafs; simpl. split; [|destruct islist; repeat split; try reflexivity; intros []; reflexivity].
+  intros n t [R1 R2] T. pose proof int_min_nonpos as M.
   assert (W : int_dec (n - t) = (n - (t + 1))%Z).
   { unfold int_dec, wrap.
     destruct (Z.ltb_spec (n - t - 1) int_min); [lia|].
     destruct (Z.ltb_spec int_max (n - t - 1)); [lia|]. lia. }
-  assert (O : dec_overflows (n - t) = false).
-  { unfold dec_overflows. destruct (Z.ltb_spec (n - t - 1) int_min); [lia|reflexivity]. }
   unfold GenAutoRemove.counter_step. destruct islist; cbv zeta; rewrite W;
-    (eexists; split; [reflexivity|]; split; [|exact O]);
+    (eexists; split; [reflexivity|]);
     (destruct (Z.leb_spec (n - (t + 1)) 0); split; intros; try discriminate; try reflexivity; lia).
+Qed.
+
+Lemma spec_leafs_ok : leafs_ok spec_leafs.
+Proof.
+  unfold leafs_ok, spec_leafs; simpl. split; [|repeat split; reflexivity].
+  intros n t [R1 R2] T. replace (n - t - 1)%Z with (n - (t + 1))%Z by lia.
+  eexists; split; [reflexivity|].
+  destruct (Z.leb_spec (n - (t + 1)) 0); split; intros; try discriminate; try reflexivity; lia.
 Qed.
 
 (* ---------- transitions of the core state ---------- *)
@@ -240,13 +263,14 @@ Proof.
 Qed.
 
 (* a CounterRemover wrapper is activated: decrement, test, remove when due, call the listener *)
-Lemma counter_trans islist ls en ce nh xr ov tr h k c n a n' due :
+Lemma counter_trans step (bounded : bool) ls en ce nh xr ov tr h k c n a n' due :
+  step_ok step ->
   InvC ls en ce nh xr ov tr -> In h (lstk ls k) -> alookup h en = Some (k, SCounter c n) ->
-  GenAutoRemove.counter_step islist int_dec (cellk ce h) = (n', due) ->
+  step int_dec (cellk ce h) = (n', due) ->
   InvC (if due then aset k (del_l h (lstk ls k)) ls else ls) en (aset h n' ce) nh xr
-       (if dec_overflows (cellk ce h) then h :: ov else ov) (ACall h c k a :: ATrig h a :: tr).
+       (if bounded && dec_overflows (cellk ce h) then h :: ov else ov) (ACall h c k a :: ATrig h a :: tr).
 Proof.
-  intros [L P] Hin E St. split; [destruct due; [apply lists_ok_del|]; exact L|].
+  intros SOK [L P] Hin E St. split; [destruct due; [apply lists_ok_del|]; exact L|].
   intros h'. destruct (Nat.eqb_spec h' h) as [->|N].
   - specialize (P h). assert (Att := attachedk_true _ _ _ _ _ E Hin).
     assert (Lt := lists_in_lt _ _ _ _ _ L Hin).
@@ -258,8 +282,8 @@ Proof.
     destruct (C _ _ _ eq_refl R) as (C1 & C2 & C3 & C4 & C5).
     unfold counter_ok, nt in *; simpl in *.
     assert (T : (0 <= Z.of_nat (length (trigs_of h tr)) < Z.max n 1)%Z) by (split; [lia|apply (proj1 (C4 eq_refl)); exact Att]).
-    rewrite C2 in St. destruct (counter_arith islist n _ R T) as (due' & S1 & S2 & S3).
-    rewrite S1 in St. inversion St; subst n' due'. clear St. rewrite C2, S3.
+    rewrite C2 in St. destruct (SOK n _ R T) as (due' & S1 & S2). assert (S3 := no_overflow_in_range n _ R T).
+    rewrite S1 in St. inversion St; subst n' due'. clear St. rewrite C2, S3, andb_false_r.
     rewrite cellk_aset, Nat.eqb_refl.
     split; [rewrite C1; reflexivity|]. split; [lia|]. split; [lia|]. split; [|exact C5].
     intros _. destruct due.
@@ -267,12 +291,12 @@ Proof.
       assert (true = false) by (apply S2; lia). discriminate.
     + rewrite Att. split; [intros _|reflexivity]. assert (H := proj1 S2 eq_refl). lia.
   - replace (obs_of (if due then aset k (del_l h (lstk ls k)) ls else ls) en (aset h n' ce) nh xr
-                    (if dec_overflows (cellk ce h) then h :: ov else ov) (ACall h c k a :: ATrig h a :: tr) h')
+                    (if bounded && dec_overflows (cellk ce h) then h :: ov else ov) (ACall h c k a :: ATrig h a :: tr) h')
       with (obs_of ls en ce nh xr ov tr h'); [exact (P h')|].
     unfold obs_of; simpl. rewrite (eqb_false_ne _ _ (not_eq_sym N)), cellk_aset, (eqb_false_ne _ _ N).
     f_equal.
     + destruct due; [symmetry; apply attachedk_del_other; exact N|reflexivity].
-    + destruct (dec_overflows (cellk ce h)); [symmetry; apply has_l_cons_ne; exact N|reflexivity].
+    + destruct (bounded && dec_overflows (cellk ce h)); [symmetry; apply has_l_cons_ne; exact N|reflexivity].
 Qed.
 
 Lemma all_false_cons v l : all_false (v :: l) <-> v = false /\ all_false l.
@@ -378,15 +402,16 @@ Qed.
 (* ---------- the invariant over arbitrary re-entrant programs ---------- *)
 
 Section Preservation.
-  Variable islist : bool.
+  Variable lf : leafs.
+  Hypothesis LOK : leafs_ok lf.
   Variable behav : nat -> nat -> list acmd.
   Variable cverdict : nat -> nat -> bool.
 
   Definition RecInv (rec : astate -> list acmd -> option astate) : Prop :=
     forall st cs st', Inv st -> rec st cs = Some st' -> Inv st'.
 
-  Lemma passes_args_id w : GenAutoRemove.cond_passes_args islist w = w.
-  Proof. unfold GenAutoRemove.cond_passes_args. destruct islist, w; reflexivity. Qed.
+  Lemma passes_args_id w : lf_pass lf w = w.
+  Proof. destruct LOK as (_ & _ & _ & P & _). apply P. Qed.
 
   Section Loops.
     Variable rec : astate -> list acmd -> option astate.
@@ -401,48 +426,48 @@ Section Preservation.
     Qed.
 
     Lemma activate_inv st h k a st' :
-      Inv st -> has_l h (lst_of st k) = true -> activate islist behav cverdict rec st h k a = Some st' -> Inv st'.
+      Inv st -> has_l h (lst_of st k) = true -> activate lf behav cverdict rec st h k a = Some st' -> Inv st'.
     Proof.
       intros I Hh H. apply has_l_In in Hh. unfold lst_of in Hh.
       assert (L := proj1 I). destruct (proj2 L _ _ Hh) as [_ [e E]].
       unfold activate in H. rewrite E in H. destruct e as [c|c n|c p wa].
       - exact (run_inner_plain_inv _ _ _ _ _ _ _ _ I E H).
       - (* CounterRemover: the generated facts *)
-        assert (Sh : GenAutoRemove.counter_state_shared islist = true) by (unfold GenAutoRemove.counter_state_shared; destruct islist; reflexivity).
-        assert (Rb : GenAutoRemove.counter_removes_before_call islist = true) by (unfold GenAutoRemove.counter_removes_before_call; destruct islist; reflexivity).
+        assert (Sh : lf_counter_shared lf = true) by (destruct LOK as (_ & _ & _ & _ & X & _); exact X).
+        assert (Rb : lf_counter_rbc lf = true) by (destruct LOK as (_ & X & _); exact X).
         rewrite Sh, Rb in H. unfold touch_helper in H. cbv zeta in H.
         change (cells (alog st (ATrig h a))) with (cells st) in H.
-        destruct (GenAutoRemove.counter_step islist int_dec (cellk (cells st) h)) as [n' due] eqn:St.
+        destruct (lf_step lf int_dec (cellk (cells st) h)) as [n' due] eqn:St.
         unfold finish_wrapper, run_inner in H. cbv zeta in H. apply HR in H; [exact H|].
-        pose proof (counter_trans islist _ _ _ _ _ _ _ _ _ _ _ a _ _ I Hh E St) as T.
-        unfold Inv. destruct due, (dec_overflows (cellk (cells st) h)); simpl; exact T.
+        pose proof (counter_trans (lf_step lf) (lf_bounded lf) _ _ _ _ _ _ _ _ _ _ _ a _ _ (proj1 LOK) I Hh E St) as T.
+        unfold Inv. destruct due, (lf_bounded lf && dec_overflows (cellk (cells st) h)); simpl; exact T.
       - (* ConditionalRemover *)
-        assert (Sh : GenAutoRemove.cond_state_shared islist = true) by (unfold GenAutoRemove.cond_state_shared; destruct islist; reflexivity).
-        assert (Rb : GenAutoRemove.cond_removes_before_call islist = true) by (unfold GenAutoRemove.cond_removes_before_call; destruct islist; reflexivity).
+        assert (Sh : lf_cond_shared lf = true) by (destruct LOK as (_ & _ & _ & _ & _ & X); exact X).
+        assert (Rb : lf_cond_rbc lf = true) by (destruct LOK as (_ & _ & X & _); exact X).
         rewrite Sh, Rb in H. unfold touch_helper in H. cbv zeta in H.
         unfold finish_wrapper, run_inner in H. cbv zeta in H. apply HR in H; [exact H|].
         match type of H with context [ACond h p _ ?v] => set (vv := v) in * end.
-        pose proof (cond_trans (GenAutoRemove.cond_passes_args islist) _ _ _ _ _ _ _ _ _ _ _ _ a vv passes_args_id I Hh E) as T.
+        pose proof (cond_trans (lf_pass lf) _ _ _ _ _ _ _ _ _ _ _ _ a vv passes_args_id I Hh E) as T.
         unfold Inv. destruct vv; simpl; exact T.
     Qed.
 
     Lemma call_all_inv k a : forall todo st st',
-      Inv st -> call_all islist behav cverdict rec st k todo a = Some st' -> Inv st'.
+      Inv st -> call_all lf behav cverdict rec st k todo a = Some st' -> Inv st'.
     Proof.
       induction todo as [|h rest IH]; intros st st' I H; simpl in H; [inversion H; subst; exact I|].
       destruct (has_l h (lst_of st k)) eqn:Hh; [|exact (IH _ _ I H)].
-      destruct (activate islist behav cverdict rec st h k a) as [st1|] eqn:Ea; [|discriminate].
+      destruct (activate lf behav cverdict rec st h k a) as [st1|] eqn:Ea; [|discriminate].
       exact (IH _ _ (activate_inv _ _ _ _ _ I Hh Ea) H).
     Qed.
 
-    Lemma dispatch_inv st k a st' : Inv st -> dispatch islist behav cverdict rec st k a = Some st' -> Inv st'.
+    Lemma dispatch_inv st k a st' : Inv st -> dispatch lf behav cverdict rec st k a = Some st' -> Inv st'.
     Proof. apply call_all_inv. Qed.
 
     Lemma process_loop_inv : forall evs st st',
-      Inv st -> process_loop islist behav cverdict rec st evs = Some st' -> Inv st'.
+      Inv st -> process_loop lf behav cverdict rec st evs = Some st' -> Inv st'.
     Proof.
       induction evs as [|[k a] rest IH]; intros st st' I H; simpl in H; [inversion H; subst; exact I|].
-      destruct (dispatch islist behav cverdict rec st k a) as [st1|] eqn:Ed; [|discriminate].
+      destruct (dispatch lf behav cverdict rec st k a) as [st1|] eqn:Ed; [|discriminate].
       exact (IH _ _ (dispatch_inv _ _ _ _ I Ed) H).
     Qed.
 
@@ -452,7 +477,7 @@ Section Preservation.
       pose proof (add_trans pf _ _ _ _ _ _ _ k e PF I) as T. destruct e; exact T.
     Qed.
 
-    Lemma step_inv st c st' : Inv st -> a_step islist behav cverdict rec st c = Some st' -> Inv st'.
+    Lemma step_inv st c st' : Inv st -> a_step lf behav cverdict rec st c = Some st' -> Inv st'.
     Proof.
       intros I H. destruct c as [pl k e h|k h|k a|k a| |h]; unfold a_step in H.
       - destruct pl as [| |hb].
@@ -470,21 +495,21 @@ Section Preservation.
       - exact (dispatch_inv _ _ _ _ I H).
       - inversion H; subst. exact I.
       - destruct (pend st) as [|ev evs]; [inversion H; subst; exact I|].
-        destruct (process_loop islist behav cverdict rec (upd_pend st []) (ev :: evs)) as [st1|] eqn:Ep; [|discriminate].
+        destruct (process_loop lf behav cverdict rec (upd_pend st []) (ev :: evs)) as [st1|] eqn:Ep; [|discriminate].
         inversion H; subst. assert (I' : Inv (upd_pend st [])) by exact I. exact (process_loop_inv _ _ _ I' Ep).
       - destruct (alookup h (hregs st)) as [b|]; [|inversion H; subst; exact I].
-        destruct (helper_unreferenced islist st b); inversion H; subst; exact I.
+        destruct (helper_unreferenced lf st b); inversion H; subst; exact I.
     Qed.
 
-    Lemma seq_inv : forall cs st st', Inv st -> a_seq islist behav cverdict rec st cs = Some st' -> Inv st'.
+    Lemma seq_inv : forall cs st st', Inv st -> a_seq lf behav cverdict rec st cs = Some st' -> Inv st'.
     Proof.
       induction cs as [|c r IH]; intros st st' I H; simpl in H; [inversion H; subst; exact I|].
-      destruct (a_step islist behav cverdict rec st c) as [st1|] eqn:E; [|discriminate].
+      destruct (a_step lf behav cverdict rec st c) as [st1|] eqn:E; [|discriminate].
       exact (IH _ _ (step_inv _ _ _ I E) H).
     Qed.
   End Loops.
 
-  Theorem run_inv : forall fuel, RecInv (a_run islist behav cverdict fuel).
+  Theorem run_inv : forall fuel, RecInv (a_run lf behav cverdict fuel).
   Proof.
     induction fuel as [|f IH]; intros st cs st' I H; simpl in H; [discriminate|]. exact (seq_inv _ IH _ _ _ I H).
   Qed.
@@ -521,7 +546,8 @@ Lemma ext_log st e : Ext st (alog st e).
 Proof. split; [exists [e]; reflexivity|]. split; intros; assumption. Qed.
 
 Section Progress.
-  Variable islist : bool.
+  Variable lf : leafs.
+  Hypothesis LOK : leafs_ok lf.
   Variable behav : nat -> nat -> list acmd.
   Variable cverdict : nat -> nat -> bool.
 
@@ -537,7 +563,7 @@ Section Progress.
 
     (* an activation = a bookkeeping prefix (the wrapper's own work) followed by the listener's body *)
     Lemma activate_pre st h k a st' :
-      Inv st -> has_l h (lst_of st k) = true -> activate islist behav cverdict rec st h k a = Some st' ->
+      Inv st -> has_l h (lst_of st k) = true -> activate lf behav cverdict rec st h k a = Some st' ->
       exists st1 body, rec st1 body = Some st' /\ Inv st1 /\ Ext st st1
                        /\ (forall k0 e, alookup h (ents st) = Some (k0, e) -> is_wrapper e -> ntrig st1 h = S (ntrig st h)).
     Proof.
@@ -548,26 +574,26 @@ Section Progress.
         + unfold Inv; simpl. exact (plain_trans _ _ _ _ _ _ _ _ _ _ c k a I E).
         + split; [eexists [_]; reflexivity|]. split; intros; assumption.
         + intros k0 e0 E0 W. rewrite E in E0. inversion E0; subst. destruct W.
-      - assert (Sh : GenAutoRemove.counter_state_shared islist = true) by (unfold GenAutoRemove.counter_state_shared; destruct islist; reflexivity).
-        assert (Rb : GenAutoRemove.counter_removes_before_call islist = true) by (unfold GenAutoRemove.counter_removes_before_call; destruct islist; reflexivity).
+      - assert (Sh : lf_counter_shared lf = true) by (destruct LOK as (_ & _ & _ & _ & X & _); exact X).
+        assert (Rb : lf_counter_rbc lf = true) by (destruct LOK as (_ & X & _); exact X).
         rewrite Sh, Rb in H. unfold touch_helper in H. cbv zeta in H.
         change (cells (alog st (ATrig h a))) with (cells st) in H.
-        destruct (GenAutoRemove.counter_step islist int_dec (cellk (cells st) h)) as [n' due] eqn:St.
+        destruct (lf_step lf int_dec (cellk (cells st) h)) as [n' due] eqn:St.
         unfold finish_wrapper, run_inner in H. cbv zeta in H.
-        pose proof (counter_trans islist _ _ _ _ _ _ _ _ _ _ _ a _ _ I Hh E St) as T.
+        pose proof (counter_trans (lf_step lf) (lf_bounded lf) _ _ _ _ _ _ _ _ _ _ _ a _ _ (proj1 LOK) I Hh E St) as T.
         eexists _, _. split; [exact H|]. split; [|split].
-        + unfold Inv. destruct due, (dec_overflows (cellk (cells st) h)); simpl; exact T.
+        + unfold Inv. destruct due, (lf_bounded lf && dec_overflows (cellk (cells st) h)); simpl; exact T.
         + split; [|split].
-          * destruct due, (dec_overflows (cellk (cells st) h)); simpl; eexists [_; _]; reflexivity.
-          * intros h0 X. destruct due, (dec_overflows (cellk (cells st) h)); simpl in X; exact X.
-          * intros h0 x X. destruct due, (dec_overflows (cellk (cells st) h)); simpl; exact X.
-        + intros _ _ _ _. unfold ntrig. destruct due, (dec_overflows (cellk (cells st) h)); simpl; rewrite Nat.eqb_refl; reflexivity.
-      - assert (Sh : GenAutoRemove.cond_state_shared islist = true) by (unfold GenAutoRemove.cond_state_shared; destruct islist; reflexivity).
-        assert (Rb : GenAutoRemove.cond_removes_before_call islist = true) by (unfold GenAutoRemove.cond_removes_before_call; destruct islist; reflexivity).
+          * destruct due, (lf_bounded lf && dec_overflows (cellk (cells st) h)); simpl; eexists [_; _]; reflexivity.
+          * intros h0 X. destruct due, (lf_bounded lf && dec_overflows (cellk (cells st) h)); simpl in X; exact X.
+          * intros h0 x X. destruct due, (lf_bounded lf && dec_overflows (cellk (cells st) h)); simpl; exact X.
+        + intros _ _ _ _. unfold ntrig. destruct due, (lf_bounded lf && dec_overflows (cellk (cells st) h)); simpl; rewrite Nat.eqb_refl; reflexivity.
+      - assert (Sh : lf_cond_shared lf = true) by (destruct LOK as (_ & _ & _ & _ & _ & X); exact X).
+        assert (Rb : lf_cond_rbc lf = true) by (destruct LOK as (_ & _ & X & _); exact X).
         rewrite Sh, Rb in H. unfold touch_helper in H. cbv zeta in H.
         unfold finish_wrapper, run_inner in H. cbv zeta in H.
         match type of H with context [ACond h p _ ?v] => set (vv := v) in * end.
-        pose proof (cond_trans (GenAutoRemove.cond_passes_args islist) _ _ _ _ _ _ _ _ _ _ _ _ a vv (passes_args_id islist) I Hh E) as T.
+        pose proof (cond_trans (lf_pass lf) _ _ _ _ _ _ _ _ _ _ _ _ a vv (passes_args_id lf LOK) I Hh E) as T.
         eexists _, _. split; [exact H|]. split; [|split].
         + unfold Inv. destruct vv; simpl; exact T.
         + split; [|split].
@@ -578,27 +604,27 @@ Section Progress.
     Qed.
 
     Lemma activate_ext st h k a st' :
-      Inv st -> has_l h (lst_of st k) = true -> activate islist behav cverdict rec st h k a = Some st' -> Ext st st'.
+      Inv st -> has_l h (lst_of st k) = true -> activate lf behav cverdict rec st h k a = Some st' -> Ext st st'.
     Proof.
       intros I Hh H. destruct (activate_pre _ _ _ _ _ I Hh H) as (st1 & body & R & I1 & E1 & _).
       exact (ext_trans _ _ _ E1 (HE _ _ _ I1 R)).
     Qed.
 
     Lemma call_all_ext k a : forall todo st st',
-      Inv st -> call_all islist behav cverdict rec st k todo a = Some st' -> Ext st st'.
+      Inv st -> call_all lf behav cverdict rec st k todo a = Some st' -> Ext st st'.
     Proof.
       induction todo as [|h rest IH]; intros st st' I H; simpl in H; [inversion H; subst; apply ext_refl|].
       destruct (has_l h (lst_of st k)) eqn:Hh; [|exact (IH _ _ I H)].
-      destruct (activate islist behav cverdict rec st h k a) as [st1|] eqn:Ea; [|discriminate].
-      exact (ext_trans _ _ _ (activate_ext _ _ _ _ _ I Hh Ea) (IH _ _ (activate_inv islist behav cverdict rec HR _ _ _ _ _ I Hh Ea) H)).
+      destruct (activate lf behav cverdict rec st h k a) as [st1|] eqn:Ea; [|discriminate].
+      exact (ext_trans _ _ _ (activate_ext _ _ _ _ _ I Hh Ea) (IH _ _ (activate_inv lf LOK behav cverdict rec HR _ _ _ _ _ I Hh Ea) H)).
     Qed.
 
     Lemma process_loop_ext : forall evs st st',
-      Inv st -> process_loop islist behav cverdict rec st evs = Some st' -> Ext st st'.
+      Inv st -> process_loop lf behav cverdict rec st evs = Some st' -> Ext st st'.
     Proof.
       induction evs as [|[k a] rest IH]; intros st st' I H; simpl in H; [inversion H; subst; apply ext_refl|].
-      destruct (dispatch islist behav cverdict rec st k a) as [st1|] eqn:Ed; [|discriminate].
-      exact (ext_trans _ _ _ (call_all_ext _ _ _ _ _ I Ed) (IH _ _ (dispatch_inv islist behav cverdict rec HR _ _ _ _ I Ed) H)).
+      destruct (dispatch lf behav cverdict rec st k a) as [st1|] eqn:Ed; [|discriminate].
+      exact (ext_trans _ _ _ (call_all_ext _ _ _ _ _ I Ed) (IH _ _ (dispatch_inv lf LOK behav cverdict rec HR _ _ _ _ I Ed) H)).
     Qed.
 
     Lemma add_entry_ext st k e h pf : Inv st -> Ext st (add_entry st k e h pf).
@@ -610,7 +636,7 @@ Section Progress.
       destruct (F eq_refl) as (F1 & _). congruence.
     Qed.
 
-    Lemma step_ext st c st' : Inv st -> a_step islist behav cverdict rec st c = Some st' -> Ext st st'.
+    Lemma step_ext st c st' : Inv st -> a_step lf behav cverdict rec st c = Some st' -> Ext st st'.
     Proof.
       intros I H. destruct c as [pl k e h|k h|k a|k a| |h]; unfold a_step in H.
       - destruct pl as [| |hb].
@@ -629,20 +655,20 @@ Section Progress.
       - exact (call_all_ext _ _ _ _ _ I H).
       - inversion H; subst. split; [exists []; reflexivity|]. split; intros; assumption.
       - destruct (pend st) as [|ev evs]; [inversion H; subst; apply ext_log|].
-        destruct (process_loop islist behav cverdict rec (upd_pend st []) (ev :: evs)) as [st1|] eqn:Ep; [|discriminate].
+        destruct (process_loop lf behav cverdict rec (upd_pend st []) (ev :: evs)) as [st1|] eqn:Ep; [|discriminate].
         inversion H; subst. assert (I' : Inv (upd_pend st [])) by exact I.
         apply (ext_trans _ st1); [|apply ext_log].
         destruct (process_loop_ext _ _ _ I' Ep) as (T & X & N). split; [exact T|]. split; [exact X|exact N].
       - destruct (alookup h (hregs st)) as [b|]; [|inversion H; subst; apply ext_refl].
-        destruct (helper_unreferenced islist st b); inversion H; subst; [apply ext_refl|].
+        destruct (helper_unreferenced lf st b); inversion H; subst; [apply ext_refl|].
         split; [exists []; reflexivity|]. split; intros; assumption.
     Qed.
 
-    Lemma seq_ext : forall cs st st', Inv st -> a_seq islist behav cverdict rec st cs = Some st' -> Ext st st'.
+    Lemma seq_ext : forall cs st st', Inv st -> a_seq lf behav cverdict rec st cs = Some st' -> Ext st st'.
     Proof.
       induction cs as [|c r IH]; intros st st' I H; simpl in H; [inversion H; subst; apply ext_refl|].
-      destruct (a_step islist behav cverdict rec st c) as [st1|] eqn:E; [|discriminate].
-      exact (ext_trans _ _ _ (step_ext _ _ _ I E) (IH _ _ (step_inv islist behav cverdict rec HR _ _ _ I E) H)).
+      destruct (a_step lf behav cverdict rec st c) as [st1|] eqn:E; [|discriminate].
+      exact (ext_trans _ _ _ (step_ext _ _ _ I E) (IH _ _ (step_inv lf LOK behav cverdict rec HR _ _ _ I E) H)).
     Qed.
 
     (* the invocation of the list of key k: entry h of that list, attached when the invocation
@@ -652,7 +678,7 @@ Section Progress.
       alookup h (ents st0) = Some (k, e) -> is_wrapper e ->
       (forall sti, Inv sti -> Ext st0 sti -> has_l h (xrem sti) = false -> attached sti h = false -> t0 < ntrig sti h) ->
       forall todo st st',
-        Inv st -> Ext st0 st -> call_all islist behav cverdict rec st k todo a = Some st' ->
+        Inv st -> Ext st0 st -> call_all lf behav cverdict rec st k todo a = Some st' ->
         has_l h (xrem st') = false -> t0 <= ntrig st h ->
         In h todo \/ t0 < ntrig st h -> t0 < ntrig st' h.
     Proof.
@@ -661,7 +687,7 @@ Section Progress.
       - assert (Xs : has_l h (xrem st) = false).
         { assert (EE := call_all_ext k a (x :: rest) st st' I). simpl in EE. exact (proj1 (proj2 (EE H)) _ Xr). }
         destruct (has_l x (lst_of st k)) eqn:Hx.
-        + destruct (activate islist behav cverdict rec st x k a) as [st2|] eqn:Ea; [|discriminate].
+        + destruct (activate lf behav cverdict rec st x k a) as [st2|] eqn:Ea; [|discriminate].
           destruct (activate_pre _ _ _ _ _ I Hx Ea) as (st1 & body & R & I1 & E1 & Tr).
           assert (I2 := HR _ _ _ I1 R). assert (E2 := HE _ _ _ I1 R).
           assert (X2 : Ext st0 st2) by exact (ext_trans _ _ _ X0 (ext_trans _ _ _ E1 E2)).
@@ -677,10 +703,10 @@ Section Progress.
     Qed.
   End Loops.
 
-  Theorem run_ext : forall fuel, RecExt (a_run islist behav cverdict fuel).
+  Theorem run_ext : forall fuel, RecExt (a_run lf behav cverdict fuel).
   Proof.
     induction fuel as [|f IH]; intros st cs st' I H; simpl in H; [discriminate|].
-    exact (seq_ext _ (run_inv islist behav cverdict f) IH _ _ _ I H).
+    exact (seq_ext _ (run_inv lf LOK behav cverdict f) IH _ _ _ I H).
   Qed.
 
   (* once detached without an explicit remove, a wrapper has been triggered since it was last seen attached *)
@@ -716,13 +742,13 @@ Section Progress.
   Qed.
 
   Theorem dispatch_reaches_attached fuel st k a st' h e :
-    Inv st -> dispatch islist behav cverdict (a_run islist behav cverdict fuel) st k a = Some st' ->
+    Inv st -> dispatch lf behav cverdict (a_run lf behav cverdict fuel) st k a = Some st' ->
     alookup h (ents st) = Some (k, e) ->
     match e with SCounter _ n => in_range n | _ => True end -> is_wrapper e ->
     attached st h = true -> has_l h (xrem st') = false -> ntrig st h < ntrig st' h.
   Proof.
     intros I H E R W A Xr. unfold dispatch in H.
-    apply (call_all_progress _ (run_inv islist behav cverdict fuel) (run_ext fuel) st h e k a (ntrig st h) E W) with (todo := lst_of st k) (st := st);
+    apply (call_all_progress _ (run_inv lf LOK behav cverdict fuel) (run_ext fuel) st h e k a (ntrig st h) E W) with (todo := lst_of st k) (st := st);
       try assumption; [|apply ext_refl|lia|].
     - intros sti Ii Xi Xs Ai. exact (detached_means_triggered _ _ _ _ _ I Ii Xi E R W A Xs Ai).
     - left. unfold attached, attachedk in A. rewrite E in A. apply has_l_In. exact A.
@@ -732,15 +758,16 @@ End Progress.
 (* ---------- the statements of C16 ---------- *)
 
 Section Statements.
-  Variable islist : bool.
+  Variable lf : leafs.
+  Hypothesis LOK : leafs_ok lf.
   Variable behav : nat -> nat -> list acmd.
   Variable cverdict : nat -> nat -> bool.
 
-  Lemma reachable_inv fuel prog st : a_run islist behav cverdict fuel a_init prog = Some st -> Inv st.
-  Proof. intros H. exact (run_inv islist behav cverdict fuel _ _ _ inv_init H). Qed.
+  Lemma reachable_inv fuel prog st : a_run lf behav cverdict fuel a_init prog = Some st -> Inv st.
+  Proof. intros H. exact (run_inv lf LOK behav cverdict fuel _ _ _ inv_init H). Qed.
 
   Theorem counter_remover_exact fuel prog st h k c n :
-    a_run islist behav cverdict fuel a_init prog = Some st ->
+    a_run lf behav cverdict fuel a_init prog = Some st ->
     alookup h (ents st) = Some (k, SCounter c n) -> (int_min < n <= int_max)%Z ->
     let t := Z.of_nat (length (trigs_of h (atrace st))) in
     calls_of h (atrace st) = map (fun a => (c, k, a)) (trigs_of h (atrace st))
@@ -756,7 +783,7 @@ Section Statements.
   Qed.
 
   Theorem conditional_remover_exact fuel prog st h k c p wa :
-    a_run islist behav cverdict fuel a_init prog = Some st ->
+    a_run lf behav cverdict fuel a_init prog = Some st ->
     alookup h (ents st) = Some (k, SCond c p wa) ->
     let verdicts := map snd (evals_of h (atrace st)) in          (* newest first *)
     calls_of h (atrace st) = map (fun a => (c, k, a)) (trigs_of h (atrace st))
@@ -771,17 +798,17 @@ Section Statements.
   Qed.
 
   Theorem attached_wrapper_is_triggered fuel prog st fuel' k a st' h e :
-    a_run islist behav cverdict fuel a_init prog = Some st ->
-    a_run islist behav cverdict (S fuel') st [ADispatch k a] = Some st' ->
+    a_run lf behav cverdict fuel a_init prog = Some st ->
+    a_run lf behav cverdict (S fuel') st [ADispatch k a] = Some st' ->
     alookup h (ents st) = Some (k, e) ->
     match e with SPlain _ => False | SCounter _ n => (int_min < n <= int_max)%Z | SCond _ _ _ => True end ->
     attached st h = true -> has_l h (xrem st') = false ->
     length (trigs_of h (atrace st)) < length (trigs_of h (atrace st')).
   Proof.
     intros H H' E R A X. simpl in H'.
-    destruct (dispatch islist behav cverdict (a_run islist behav cverdict fuel') st k a) as [s1|] eqn:D; [|discriminate].
+    destruct (dispatch lf behav cverdict (a_run lf behav cverdict fuel') st k a) as [s1|] eqn:D; [|discriminate].
     inversion H'; subst s1.
-    apply (dispatch_reaches_attached islist behav cverdict fuel' st k a st' h e (reachable_inv _ _ _ H) D E); try assumption;
+    apply (dispatch_reaches_attached lf LOK behav cverdict fuel' st k a st' h e (reachable_inv _ _ _ H) D E); try assumption;
       destruct e; try exact R; try exact I; destruct R.
   Qed.
 End Statements.
@@ -792,15 +819,16 @@ Definition is_drop (c : acmd) : bool := match c with ADropHelper _ => true | _ =
 Definition strip_drops (cs : list acmd) : list acmd := filter (fun c => negb (is_drop c)) cs.
 
 Section Helper.
-  Variable islist : bool.
+  Variable lf : leafs.
+  Hypothesis LOK : leafs_ok lf.
   Variable behav : nat -> nat -> list acmd.
   Variable cverdict : nat -> nat -> bool.
   Let behav' (c n : nat) : list acmd := strip_drops (behav c n).
 
-  Lemma helper_unreferenced_true st b : helper_unreferenced islist st b = true.
+  Lemma helper_unreferenced_true st b : helper_unreferenced lf st b = true.
   Proof.
-    unfold helper_unreferenced, GenAutoRemove.counter_state_shared, GenAutoRemove.cond_state_shared.
-    destruct (alookup b (ents st)) as [[k [c|c n|c p wa]]|]; destruct islist; reflexivity.
+    destruct LOK as (_ & _ & _ & _ & S1 & S2). unfold helper_unreferenced.
+    destruct (alookup b (ents st)) as [[k [c|c n|c p wa]]|]; auto.
   Qed.
 
   Section Loops.
@@ -815,54 +843,54 @@ Section Helper.
     Proof. unfold finish_wrapper. rewrite !run_inner_eq. reflexivity. Qed.
 
     Lemma activate_eq st h k a :
-      activate islist behav cverdict rec st h k a = activate islist behav' cverdict rec' st h k a.
+      activate lf behav cverdict rec st h k a = activate lf behav' cverdict rec' st h k a.
     Proof.
       unfold activate. destruct (alookup h (ents st)) as [[k0 [c|c n|c p wa]]|]; [apply run_inner_eq| | |reflexivity].
-      - cbv zeta. destruct (GenAutoRemove.counter_step islist int_dec _) as [n' due]. apply finish_wrapper_eq.
+      - cbv zeta. destruct (lf_step lf int_dec _) as [n' due]. apply finish_wrapper_eq.
       - cbv zeta. apply finish_wrapper_eq.
     Qed.
 
     Lemma call_all_eq k a : forall todo st,
-      call_all islist behav cverdict rec st k todo a = call_all islist behav' cverdict rec' st k todo a.
+      call_all lf behav cverdict rec st k todo a = call_all lf behav' cverdict rec' st k todo a.
     Proof.
       induction todo as [|h rest IH]; intros st; simpl; [reflexivity|].
       destruct (has_l h (lst_of st k)); [|apply IH]. rewrite activate_eq.
-      destruct (activate islist behav' cverdict rec' st h k a); [apply IH|reflexivity].
+      destruct (activate lf behav' cverdict rec' st h k a); [apply IH|reflexivity].
     Qed.
 
     Lemma process_loop_eq : forall evs st,
-      process_loop islist behav cverdict rec st evs = process_loop islist behav' cverdict rec' st evs.
+      process_loop lf behav cverdict rec st evs = process_loop lf behav' cverdict rec' st evs.
     Proof.
       induction evs as [|[k a] rest IH]; intros st; simpl; [reflexivity|].
-      unfold dispatch. rewrite call_all_eq. destruct (call_all islist behav' cverdict rec' st k (lst_of st k) a); [apply IH|reflexivity].
+      unfold dispatch. rewrite call_all_eq. destruct (call_all lf behav' cverdict rec' st k (lst_of st k) a); [apply IH|reflexivity].
     Qed.
 
     Lemma step_eq st c : is_drop c = false ->
-      a_step islist behav cverdict rec st c = a_step islist behav' cverdict rec' st c.
+      a_step lf behav cverdict rec st c = a_step lf behav' cverdict rec' st c.
     Proof.
       destruct c; intros D; try discriminate D; unfold a_step; try reflexivity.
       - unfold dispatch. apply call_all_eq.
       - destruct (pend st) as [|ev evs]; [reflexivity|]. rewrite process_loop_eq. reflexivity.
     Qed.
 
-    Lemma drop_noop st h : a_step islist behav cverdict rec st (ADropHelper h) = Some st.
+    Lemma drop_noop st h : a_step lf behav cverdict rec st (ADropHelper h) = Some st.
     Proof. simpl. destruct (alookup h (hregs st)); [rewrite helper_unreferenced_true|]; reflexivity. Qed.
 
     Lemma seq_eq : forall cs st,
-      a_seq islist behav cverdict rec st cs = a_seq islist behav' cverdict rec' st (strip_drops cs).
+      a_seq lf behav cverdict rec st cs = a_seq lf behav' cverdict rec' st (strip_drops cs).
     Proof.
       induction cs as [|c r IH]; intros st; [reflexivity|].
       destruct (is_drop c) eqn:D.
-      - destruct c; try discriminate. change (a_seq islist behav cverdict rec st (ADropHelper h :: r))
-          with (match a_step islist behav cverdict rec st (ADropHelper h) with Some s1 => a_seq islist behav cverdict rec s1 r | None => None end).
+      - destruct c; try discriminate. change (a_seq lf behav cverdict rec st (ADropHelper h :: r))
+          with (match a_step lf behav cverdict rec st (ADropHelper h) with Some s1 => a_seq lf behav cverdict rec s1 r | None => None end).
         rewrite drop_noop. unfold strip_drops; simpl. apply IH.
       - unfold strip_drops; simpl. rewrite D; simpl. rewrite (step_eq _ _ D).
-        destruct (a_step islist behav' cverdict rec' st c); [apply IH|reflexivity].
+        destruct (a_step lf behav' cverdict rec' st c); [apply IH|reflexivity].
     Qed.
   End Loops.
 
   Theorem helper_lifetime_irrelevant : forall fuel st prog,
-    a_run islist behav cverdict fuel st prog = a_run islist behav' cverdict fuel st (strip_drops prog).
+    a_run lf behav cverdict fuel st prog = a_run lf behav' cverdict fuel st (strip_drops prog).
   Proof.
     induction fuel as [|f IH]; intros st prog; [reflexivity|]. simpl. apply seq_eq. exact IH.
   Qed.
@@ -878,7 +906,7 @@ Definition int_min_prog : list acmd :=
    every trigger. *)
 Lemma counter_int_min_refuted :
   exists islist fuel st,
-    a_run islist (fun _ _ => []) (fun _ _ => false) fuel a_init int_min_prog = Some st
+    a_run (gen_leafs islist) (fun _ _ => []) (fun _ _ => false) fuel a_init int_min_prog = Some st
     /\ alookup 0 (ents st) = Some (0, SCounter 1 int_min)
     /\ Z.max int_min 1 = 1%Z
     /\ has_l 0 (ovfs st) = true
@@ -886,3 +914,10 @@ Lemma counter_int_min_refuted :
     /\ length (calls_of 0 (atrace st)) = 3
     /\ cellk (cells st) 0 = (int_max - 2)%Z.
 Proof. exists true, 2. eexists. split; [vm_compute; reflexivity|]. vm_compute. repeat split; reflexivity. Qed.
+
+(* the specification on the same input: detached with the first trigger, one call *)
+Lemma spec_int_min_detaches :
+  exists st,
+    a_run spec_leafs (fun _ _ => []) (fun _ _ => false) 2 a_init int_min_prog = Some st
+    /\ attached st 0 = false /\ length (calls_of 0 (atrace st)) = 1 /\ ovfs st = [].
+Proof. eexists. split; [vm_compute; reflexivity|]. vm_compute. repeat split; reflexivity. Qed.
